@@ -200,7 +200,7 @@ class FlushBook(object):
             rt.violation("empty-batch-flushed", {"batch": getattr(batch, "bid", repr(batch))})
         if batch.is_flushed():
             rt.violation("finished-batch-flushed", {"batch": getattr(batch, "bid", repr(batch))})
-        if self.open:
+        if self.open and not rt.in_flush_sync:
             rt.violation("flush-events-nested", {"batch": getattr(batch, "bid", repr(batch))})
         self.open.append(b)
         # nothing is flushed once the awaited computation is complete
